@@ -441,7 +441,8 @@ class VirtualFileSystem(FileSystem[str]):
         """Convert paths to one representation."""
         if isinstance(path, File):
             path = path.path
-        return os.path.normpath(path).replace('\\', '/').casefold()
+        # Swap backslashes first, so that they are separators for normpath() on every platform.
+        return os.path.normpath(path.replace('\\', '/')).replace('\\', '/').casefold()
 
     def open_bin(self, name: Union[str, File[Self]]) -> BinaryIO:
         """Return a bytes buffer for a 'file'."""
